@@ -194,6 +194,7 @@ func oracle(c cfg, o *vrt.Outcome) {
 	nbegin := 0
 	var stopClock int64 = -1
 	tornDown := false
+	var lastEnd int64
 	cleaned := map[string]bool{}
 	for li, ev := range o.Log {
 		f := strings.Fields(ev)
@@ -212,6 +213,7 @@ func oracle(c cfg, o *vrt.Outcome) {
 			}
 			open[f[1]] = true
 		case f[0] == "end":
+			lastEnd = o.LogClock[li]
 			delete(open, f[1])
 			if tornDown && !timeoutFired {
 				o.Fail("C05/teardown-not-last", "body-end-after-setup-cleanup", "an iteration finished after the setup cleanups had run, without the completion timeout expiring: "+ev)
@@ -305,6 +307,10 @@ func oracle(c cfg, o *vrt.Outcome) {
 			stop = c.cancelAt
 		}
 		limit := stop + c.ct + 250*time.Millisecond
+		// the limit ended the run: nothing is left to wait for once the last allowed iteration has finished
+		if c.setup == "ok" && c.limit > 0 && uint64(nbegin) == c.limit && len(open) == 0 && returned && retClock-lastEnd > int64(250*time.Millisecond) {
+			o.Fail("C05/late-return", "after-limit", fmt.Sprintf("the last allowed iteration finished at %s, Do returned at %s", time.Duration(lastEnd), time.Duration(retClock)))
+		}
 		if c.setup == "ok" && time.Duration(retClock) > limit {
 			o.Fail("C05/late-return", "cost0", fmt.Sprintf("Do returned at %s, later than stop instant %s + completion timeout %s + guards", time.Duration(retClock), stop, c.ct))
 		}
@@ -368,6 +374,9 @@ func scenariosFor(tier string) []vrt.Scenario {
 		s.Name += "/policy=delay"
 		out = append(out, s)
 	}
+	// config-file mode, the limit reached at the very start of the first stage
+	add(b-1, cfg{mode: "file", maxDur: ms(2000), limit: 1, cancelAt: never, body: "instant"})
+	add(b-1, cfg{mode: "file-users-first", maxDur: ms(2000), limit: 2, cancelAt: never, body: "sleep30", conc: 2})
 	// the triggering window is over before it begins
 	add(b, cfg{mode: "constant", maxDur: ms(10), cancelAt: never, body: "sleep30", conc: 2})
 	add(b, cfg{mode: "constant", maxDur: ms(5), cancelAt: never, body: "instant"})
